@@ -249,6 +249,10 @@ def o_c15(ctx):
         out.append(v(ctx.c, "num_elements smaller than num_states", f"{nel} < {ns}"))
     if heap < 12 * ns:
         out.append(v(ctx.c, "heap_bytes smaller than 12 bytes per state", f"{heap} < 12*{ns}"))
+    rs = single(ctx.i, "RSTATS")
+    if rs is not None and rs[:3] != st[:3]:
+        out.append(v(ctx.c, "the automaton restored from its own serialised bytes reports other statistics than the original",
+                     f"restored={' '.join(rs[:3])} original={' '.join(st[:3])}"))
     return out
 
 
@@ -324,5 +328,5 @@ PROPS = {
     "C12": dict(tags={"BUILD", "OVL", "FIND", "NOS", "OVLI", "FINDI", "NOSI"}, oracle=o_c12),
     "C13": dict(tags={"BUILD", "TABLE", "TICKS", "RTICKS", "KINDCHK", "KINDCHKI"}, oracle=o_c13),
     "C14": dict(tags={"BUILD", "IMG", "DET", "THREADS", "APIX"}, oracle=o_c14, group=g_c14),
-    "C15": dict(tags={"BUILD", "STATS", "TABLE"}, oracle=o_c15),
+    "C15": dict(tags={"BUILD", "STATS", "TABLE", "RSTATS"}, oracle=o_c15),
 }
